@@ -165,7 +165,10 @@ def small_hash(case, byte):
     """byte `byte` of the SHA-1 of a case: a source of per-case choices that is a pure function of the case"""
     import hashlib, json
 
-    return hashlib.sha1(json.dumps(case, sort_keys=True, default=str).encode()).digest()[byte]
+    text = json.dumps(case, sort_keys=True, default=str)
+    if byte >= 20:  # (a SHA-1 digest has 20 bytes: further independent choices come from a salted digest)
+        return hashlib.sha1((text + "#%d" % byte).encode()).digest()[0]
+    return hashlib.sha1(text.encode()).digest()[byte]
 
 
 def stack_flag(case):
